@@ -69,6 +69,16 @@ func (fr *Frame) execInstr(st *State, instr ssa.Instruction) {
 		fr.unop(st, x)
 	case *ssa.BinOp:
 		a, b := fr.val(st, x.X), fr.val(st, x.Y)
+		if x.Op == token.AND {
+			// byte & (0xff << s)  ==  (byte / 2^s) * 2^s   (8-bit identity, s >= 0)
+			if m, sh, ok := highMask8(x.X, x.Y); ok {
+				v, s := fr.val(st, m), fr.val(st, sh)
+				p := pow2Term(s, 8)
+				r := mk(fmt.Sprintf("(ite (>= %s 8) 0 (* (div %s %s) %s))", s.S, v.S, p.S, p.S), SInt, x.Type())
+				fr.setVal(x, fc.define(x.Name(), r))
+				return
+			}
+		}
 		r := fc.binop(x.Op, a, b, x.X.Type(), x.Y.Type(), x.Type(), x.Pos(), st, fr)
 		r.T = x.Type()
 		fr.setVal(x, fc.define(x.Name(), r))
@@ -115,7 +125,7 @@ func (fr *Frame) execInstr(st *State, instr ssa.Instruction) {
 			fr.setVal(x, mk(app("select", v.S, i.S), fc.sortOf(u.Elem()), u.Elem()))
 		default: // string
 			fr.safety(st, "bounds", mk(fmt.Sprintf("(and (<= 0 %s) (< %s (sl_len %s)))", i.S, i.S, v.S), SBool, nil), x.Pos(), "string index")
-			p := pElem(slArr(v), mk(fmt.Sprintf("(+ (sl_off %s) %s)", v.S, i.S), SInt, nil))
+			p := pElem(slArr(v), mk(fmt.Sprintf("(ix (sl_off %s) %s)", v.S, i.S), SInt, nil))
 			r := fc.loadScalar(st, p, types.Typ[types.Uint8])
 			fc.assume(st, fc.typeInv(r, types.Typ[types.Uint8], 0))
 			fr.setVal(x, r)
@@ -324,10 +334,7 @@ func (fr *Frame) indexAddr(st *State, x *ssa.IndexAddr) {
 	switch u := x.X.Type().Underlying().(type) {
 	case *types.Slice:
 		fr.safety(st, "bounds", mk(fmt.Sprintf("(and (<= 0 %s) (< %s (sl_len %s)))", i.S, i.S, base.S), SBool, nil), x.Pos(), "slice index out of range")
-		idx := mk(fmt.Sprintf("(+ (sl_off %s) %s)", base.S, i.S), SInt, nil)
-		if c, ok := isConstInt(slOffConst(base)); ok && c == 0 {
-			idx = i
-		}
+		idx := mk(fmt.Sprintf("(ix (sl_off %s) %s)", base.S, i.S), SInt, nil)
 		p := pElem(fc.define("arr", slArr(base)), fc.define("ix", idx))
 		p.T = x.Type()
 		fr.setVal(x, p)
@@ -699,4 +706,26 @@ func (w *World) watchChan(t types.Type) bool {
 	}
 	s, ok := c.Elem().Underlying().(*types.Struct)
 	return ok && s.NumFields() == 0
+}
+
+// highMask8 recognises v & (0xff << s) on bytes (either operand order) and returns v and s.
+func highMask8(a, b ssa.Value) (v, s ssa.Value, ok bool) {
+	try := func(val, mask ssa.Value) (ssa.Value, ssa.Value, bool) {
+		bo, isB := mask.(*ssa.BinOp)
+		if !isB || bo.Op != token.SHL {
+			return nil, nil, false
+		}
+		c, isC := bo.X.(*ssa.Const)
+		if !isC || c.Value == nil || c.Value.ExactString() != "255" {
+			return nil, nil, false
+		}
+		if bt := basicOf(bo.Type()); bt == nil || bt.Kind() != types.Uint8 {
+			return nil, nil, false
+		}
+		return val, bo.Y, true
+	}
+	if v, s, ok = try(a, b); ok {
+		return
+	}
+	return try(b, a)
 }
